@@ -938,3 +938,123 @@ func runC12FailingRedefined(c *CaseCtx, r *rand.Rand) (res CaseResult) {
 	res.Sample = det
 	return res
 }
+
+// Two function types whose parameter types are different types that print
+// identically ("main.unit").
+func sameNamedParamA() interface{} {
+	type unit int64
+	return func(u unit, t T0) T1 { return T1{} }
+}
+
+func sameNamedParamB() interface{} {
+	type unit string
+	return func(u unit, t T0) T1 { return T1{} }
+}
+
+// runC14SameNamedTypes: introspection of a function must not depend on which
+// other functions were analysed before it, even when their parameter types
+// print alike.
+func runC14SameNamedTypes(c *CaseCtx, r *rand.Rand) (res CaseResult) {
+	res.NonTrivial = true
+	res.Key = "same-named-parameter-types"
+	res.obs("family.same-named-parameter-types", 1)
+	det := map[string]interface{}{"case": res.Key}
+	defer func() {
+		if p := recover(); p != nil {
+			res.violate("C06", "panic/newfunc-"+crashKey(fmt.Sprint(p)), fmt.Sprintf("introspection panicked: %v", p), det)
+		}
+	}()
+	fns := []interface{}{sameNamedParamA(), sameNamedParamB()}
+	if r.Intn(2) == 0 {
+		fns[0], fns[1] = fns[1], fns[0]
+	}
+	for round := 0; round < 2; round++ {
+		for _, fn := range fns {
+			f, err := am.NewFunc(fn)
+			res.Evals++
+			if err != nil {
+				res.violate("C14", "accepted-shape-rejected", "NewFunc rejected a positional signature: "+err.Error(), det)
+				continue
+			}
+			ft := reflect.TypeOf(fn)
+			vals := f.Input().Values()
+			if len(vals) != 2 || vals[0].Type != ft.In(0) || vals[1].Type != ft.In(1) || vals[0].Name != "" {
+				got := []string{}
+				for _, v := range vals {
+					got = append(got, fmt.Sprintf("%v(kind %v)", v.Type, v.Type.Kind()))
+				}
+				res.violate("C14", "input-values-differ", fmt.Sprintf("input values = %v, the function declares %v(kind %v), %v", got, ft.In(0), ft.In(0).Kind(), ft.In(1)), det)
+			}
+			res.obs("values_compared", 2)
+		}
+	}
+	res.Sample = det
+	return res
+}
+
+// runC15TypedNil: an output declared with an interface type in which the
+// callback stores a typed nil pointer. An ordinary function returning that
+// value hands its callers a NON-nil interface holding a nil pointer; so does
+// the built function, to the direct caller and to a downstream consumer, and
+// SignatureValues/FromSignature restore it.
+func runC15TypedNil(c *CaseCtx, r *rand.Rand) (res CaseResult) {
+	res.NonTrivial = true
+	res.Key = "typed-nil-in-interface-typed-output"
+	res.obs("family.typed-nil-output", 1)
+	det := map[string]interface{}{"case": res.Key}
+	defer func() {
+		if p := recover(); p != nil {
+			res.violate("C06", "panic/valueset-"+crashKey(fmt.Sprint(p)), fmt.Sprintf("panicked: %v", p), det)
+		}
+	}()
+	var nilPtr *concErr
+	var asErr error = nilPtr
+	out, err := am.NewValueSet([]am.Value{{Name: "warn", Type: errT}, {Name: "b", Type: types[1]}})
+	if err != nil {
+		res.Skip = "newvalueset"
+		return res
+	}
+	built, err := am.BuildFunc(nil, out, func(in, out *am.ValueSet) error {
+		out.Named("warn").Value = reflect.ValueOf(&asErr).Elem()
+		out.Named("b").Value = reflect.ValueOf(T1{ID: 7})
+		return nil
+	})
+	if err != nil {
+		res.Skip = "buildfunc"
+		return res
+	}
+	// round trip through the signature
+	out.Named("warn").Value = reflect.ValueOf(&asErr).Elem()
+	out.Named("b").Value = reflect.ValueOf(T1{ID: 7})
+	sv := out.SignatureValues()
+	out2, _ := am.NewValueSet([]am.Value{{Name: "warn", Type: errT}, {Name: "b", Type: types[1]}})
+	if err := out2.FromSignature(sv); err == nil {
+		if w := out2.Named("warn").Value; !w.IsValid() || w.IsNil() {
+			res.violate("C15", "roundtrip", "a typed nil pointer stored in an error-typed value comes back as a nil interface through SignatureValues/FromSignature", det)
+		}
+	}
+	var seen []interface{}
+	cons, _ := am.NewFunc(func(in struct {
+		am.Struct
+		Warn error
+		B    T1
+	}) {
+		seen = append(seen, in.Warn)
+	})
+	for k := 0; k < 3; k++ {
+		rr := cons.Call(am.ConverterFunc(built))
+		res.Evals++
+		if rr.Err() != nil {
+			res.violate("C15", "built-call-failed", "a consumer of the built function's outputs failed: "+firstLine(errStr(rr.Err())), det)
+			break
+		}
+	}
+	for _, w := range seen {
+		if w == nil {
+			res.violate("C15", "downstream-differs", "the consumer received a nil interface; an ordinary function returning a typed nil pointer as error hands on a non-nil interface", det)
+			break
+		}
+	}
+	res.Sample = det
+	return res
+}
